@@ -1182,6 +1182,9 @@ func buildMessageFieldSchema(pkg *Package, context fieldContext, src protoreflec
 			ref.To, err = pkg.buildObjectSchema(msg, msgOptions.GetObject())
 		}
 		if err != nil {
+			// Leave the placeholder unlinked: 'To' holds a typed nil here, which
+			// a later lookup would hand out as a schema without error.
+			ref.To = nil
 			return nil, err
 		}
 
